@@ -5,6 +5,8 @@ import (
 	"testing"
 	"unicode/utf8"
 
+	"pgregory.net/rapid"
+
 	"verif/harness"
 	"verif/ref"
 )
@@ -294,4 +296,31 @@ func FuzzC17(f *testing.F) {
 			t.Fatalf("C17: %s\ncase: %s", v.Fail, mustJSONString(c))
 		}
 	})
+}
+
+// FuzzC03 / FuzzC04: the history generator driven by the coverage-guided
+// fuzzer instead of rapid's own random source (rapid.MakeFuzz turns the
+// fuzzer's octets into the generator's choices): coverage feedback from the
+// library steers which histories are tried next. Same oracles as the rapid
+// runs; a saved input replays under `go test -run FuzzC04/<name>`.
+func FuzzC03(f *testing.F) {
+	registerAll()
+	f.Fuzz(rapid.MakeFuzz(func(rt *rapid.T) {
+		c := genHistory(rt, 30, true)
+		if v := c03Run(c); v.Fail != "" {
+			rt.Fatalf("C03: %s\ncase: %s", v.Fail, mustJSONString(c))
+		}
+	}))
+}
+
+func FuzzC04(f *testing.F) {
+	registerAll()
+	f.Fuzz(rapid.MakeFuzz(func(rt *rapid.T) {
+		c := genHistory(rt, 30, true)
+		c.Discipline = genDiscipline(rt)
+		c.CutSeed = rapid.IntRange(0, 1<<20).Draw(rt, "cutseed")
+		if v := c04Run(c); v.Fail != "" {
+			rt.Fatalf("C04: %s\ncase: %s", v.Fail, mustJSONString(c))
+		}
+	}))
 }
